@@ -214,27 +214,48 @@ Proof.
   induction l as [|o l IH]; cbn [flat_map concat map]; [reflexivity|]. rewrite IH, map_app. reflexivity.
 Qed.
 
-(** Keys of the allocation map are indices of recorded samples. *)
-Lemma alloc_keys_bound c size l : forall sto,
-  (forall k, In k (map fst (st_allocs sto)) -> k < N.of_nat (length (st_samples sto))) ->
-  forall k, In k (map fst (st_allocs (fold_left (record_one c size) l sto))) ->
-            k < N.of_nat (length (st_samples (fold_left (record_one c size) l sto))).
+(** The keys of the allocation map are exactly the indices of the recorded
+    samples that came with allocation info (fewer than 2^32 samples). *)
+Lemma filter_keys_id (k : N) (m : list (N * alloc_info)) :
+  (forall x, In x (map fst m) -> x < k) -> filter (fun p => negb (fst p =? k)) m = m.
 Proof.
-  induction l as [|[r d] l IH]; intros sto Hinv; cbn [fold_left]; [exact Hinv|].
-  apply IH. intros k Hk. cbn [record_one st_samples st_allocs] in *.
-  rewrite app_length. cbn [length].
-  destruct (ai_is_empty (r_alloc r)).
-  - specialize (Hinv k Hk). lia.
-  - unfold map_insert in Hk. rewrite map_app in Hk. apply in_app_or in Hk. destruct Hk as [Hk|Hk].
-    + assert (Hin : In k (map fst (st_allocs sto))).
-      { apply in_map_iff in Hk. destruct Hk as [p [Hp Hin]]. apply filter_In in Hin. destruct Hin as [Hin _].
-        apply in_map_iff. exists p. split; assumption. }
-      specialize (Hinv k Hin). lia.
-    + cbn [map fst In] in Hk. destruct Hk as [Hk|[]]. subst k.
-      assert (Hle : N.of_nat (length (st_samples sto)) mod 2 ^ 32 <= N.of_nat (length (st_samples sto))).
-      { apply N.mod_le. discriminate. }
-      lia.
+  induction m as [|p m IH]; intros H; cbn [filter]; [reflexivity|].
+  assert (Hp : fst p < k) by (apply H; left; reflexivity).
+  assert (E : (fst p =? k) = false) by (apply N.eqb_neq; lia). rewrite E. cbn [negb].
+  f_equal. apply IH. intros x Hx. apply H. right. exact Hx.
 Qed.
+
+Lemma alloc_keys_exact c size l : forall sto,
+  (forall k, In k (map fst (st_allocs sto)) -> k < N.of_nat (length (st_samples sto))) ->
+  N.of_nat (length (st_samples sto)) + N.of_nat (length l) < 2 ^ 32 ->
+  map fst (st_allocs (fold_left (record_one c size) l sto)) =
+  map fst (st_allocs sto) ++ alloc_keys_from (N.of_nat (length (st_samples sto))) (map fst l).
+Proof.
+  induction l as [|[r d] l IH]; intros sto Hinv Hb; cbn [fold_left map alloc_keys_from fst].
+  - rewrite app_nil_r. reflexivity.
+  - cbn [length] in Hb.
+    set (len := N.of_nat (length (st_samples sto))) in *.
+    assert (Hlen' : N.of_nat (length (st_samples (record_one c size sto (r, d)))) = len + 1).
+    { cbn [record_one st_samples]. rewrite app_length. cbn [length]. unfold len. lia. }
+    rewrite IH.
+    + rewrite Hlen'. cbn [record_one st_allocs]. fold len.
+      destruct (ai_is_empty (r_alloc r)); cbn [app]; [reflexivity|].
+      assert (Hmod : len mod 2 ^ 32 = len) by (apply N.mod_small; lia).
+      rewrite Hmod. unfold map_insert. rewrite (filter_keys_id len _ Hinv).
+      rewrite map_app. cbn [map fst]. rewrite <- app_assoc. reflexivity.
+    + intros k Hk. rewrite Hlen'. cbn [record_one st_allocs] in Hk. fold len in Hk.
+      destruct (ai_is_empty (r_alloc r)).
+      * specialize (Hinv k Hk). lia.
+      * assert (Hmod : len mod 2 ^ 32 = len) by (apply N.mod_small; lia).
+        rewrite Hmod in Hk. unfold map_insert in Hk. rewrite (filter_keys_id len _ Hinv) in Hk.
+        rewrite map_app in Hk. apply in_app_or in Hk. destruct Hk as [Hk|Hk].
+        -- specialize (Hinv k Hk). lia.
+        -- cbn [map fst In] in Hk. destruct Hk as [Hk|[]]. lia.
+    + rewrite Hlen'. lia.
+Qed.
+
+Lemma map_fst_with_dur c l : map fst (with_dur c l) = l.
+Proof. unfold with_dur. rewrite map_map. cbn [fst]. apply map_id. Qed.
 
 Lemma kept_size_last c pre : c_test c = false -> c_size c = None -> pre <> [] ->
   kept_size c pre = last_size c pre.
@@ -290,11 +311,12 @@ Proof.
     cbn [store_empty st_counts length]. apply Nat.eqb_refl. }
   rewrite Hcnt. cbn [andb].
   (* allocation keys *)
-  assert (Hkeys : forallb (fun key => key <? N.of_nat (length (concat (kept_of c pre)))) (map fst (st_allocs (store_of c pre))) = true).
-  { apply forallb_forall. intros key Hin. apply N.ltb_lt. rewrite <- store_of_samples_len.
-    unfold store_of in *. apply (alloc_keys_bound c (kept_size c pre) _ store_empty); [|exact Hin].
-    intros k0 Hk0. cbn in Hk0. contradiction. }
-  rewrite Hkeys. cbn [andb].
+  assert (Hkeys : map fst (st_allocs (store_of c pre)) = alloc_keys_from 0 (concat (kept_of c pre))).
+  { unfold store_of. rewrite alloc_keys_exact.
+    - cbn [store_empty st_allocs st_samples map length app]. rewrite map_fst_with_dur. reflexivity.
+    - intros k0 Hk0. cbn in Hk0. contradiction.
+    - cbn [store_empty st_samples length]. rewrite length_with_dur. rewrite <- store_of_samples_len. lia. }
+  rewrite Hkeys, list_eqb_refl. cbn [andb].
   (* the rule *)
   assert (Hall : forallb (fun j => continue_after c init pre j) (seq 0 (length pre)) = true).
   { apply forallb_forall. intros j Hj. apply in_seq in Hj. unfold pre.
